@@ -198,5 +198,95 @@ func genC08Tags(repo string) (string, error) {
 		b.WriteString("  (" + coqStr(name) + ", [\n    " + strings.Join(rows, ";\n    ") + "])")
 	}
 	b.WriteString("].\n")
+	rows, opaque, err := c08LogOpFields(repo, structs)
+	if err != nil {
+		return "", err
+	}
+	b.WriteString("\n(* consensus/raft/log_op.go: the fields of LogOp as the msgpack encoder of go-libp2p-raft sees them; a field of a\n   foreign struct type (the trace span context) is not described: it is listed with its omitempty flag *)\n")
+	b.WriteString("Definition raft_logop_fields : list field := [\n    " + strings.Join(rows, ";\n    ") + "].\n")
+	b.WriteString("Definition raft_logop_opaque : list (string * bool) := [" + strings.Join(opaque, "; ") + "].\n")
 	return b.String(), nil
+}
+
+// LogOp of consensus/raft: `*api.X` is a pointer to struct X of the api table, a named integer type of the file is an
+// integer; a field whose type is a struct of another package is reported as opaque (name, omitempty).
+func c08LogOpFields(repo string, apiStructs map[string]*ast.StructType) (rows []string, opaque []string, err error) {
+	_, f, err := parseFile(filepath.Join(repo, "consensus", "raft", "log_op.go"))
+	if err != nil {
+		return nil, nil, err
+	}
+	ints := map[string]bool{}
+	var st *ast.StructType
+	for _, d := range f.Decls {
+		gd, ok := d.(*ast.GenDecl)
+		if !ok || gd.Tok != token.TYPE {
+			continue
+		}
+		for _, sp := range gd.Specs {
+			ts := sp.(*ast.TypeSpec)
+			if id, ok := ts.Type.(*ast.Ident); ok && (id.Name == "int" || id.Name == "int32" || id.Name == "int64") {
+				ints[ts.Name.Name] = true
+			}
+			if s, ok := ts.Type.(*ast.StructType); ok && ts.Name.Name == "LogOp" {
+				st = s
+			}
+		}
+	}
+	if st == nil {
+		return nil, nil, fmt.Errorf("type LogOp struct not found in consensus/raft/log_op.go")
+	}
+	for _, fd := range st.Fields.List {
+		tag := ""
+		if fd.Tag != nil {
+			tag, _ = strconv.Unquote(fd.Tag.Value)
+		}
+		if len(fd.Names) == 0 {
+			return nil, nil, fmt.Errorf("LogOp: embedded field %s cannot be followed", exprString(fd.Type))
+		}
+		stag := reflect.StructTag(tag)
+		for _, n := range fd.Names {
+			jt, jok := stag.Lookup("json")
+			ct, cok := stag.Lookup("codec")
+			if !cok {
+				ct = jt
+			}
+			jn, jo, js := c08TagParts(jt)
+			cn, co, cs := c08TagParts(ct)
+			if !ast.IsExported(n.Name) {
+				continue // invisible to every encoder
+			}
+			if !jok || jn == "" {
+				jn = n.Name
+			}
+			if cn == "" {
+				cn = n.Name
+			}
+			ty := ""
+			switch x := fd.Type.(type) {
+			case *ast.Ident:
+				if ints[x.Name] {
+					ty = "TInt"
+				}
+			case *ast.StarExpr:
+				if sel, ok := x.X.(*ast.SelectorExpr); ok {
+					if p, ok := sel.X.(*ast.Ident); ok && p.Name == "api" && apiStructs[sel.Sel.Name] != nil {
+						ty = "(TPtr (TStruct " + coqStr(sel.Sel.Name) + "))"
+					}
+				}
+			case *ast.SelectorExpr:
+				if p, ok := x.X.(*ast.Ident); ok && p.Name == "trace" && !cs {
+					opaque = append(opaque, fmt.Sprintf("(%s, %v)", coqStr(n.Name), co))
+					continue
+				}
+			}
+			if ty == "" {
+				ty = c08TypeOf(fd.Type, map[string]*ast.StructType{})
+			}
+			rows = append(rows, fmt.Sprintf("mk_field %s %s %v %v %s %v %v %s", coqStr(n.Name), coqStr(jn), jo, js, coqStr(cn), co, cs, ty))
+		}
+	}
+	if len(rows) == 0 {
+		return nil, nil, fmt.Errorf("LogOp: no encodable field found")
+	}
+	return rows, opaque, nil
 }
